@@ -2,11 +2,11 @@ package c13
 
 import (
 	"fmt"
-
-	"github.com/apparentlymart/go-textseg/v15/textseg"
 	"strconv"
 	"strings"
 	"unicode/utf8"
+
+	"github.com/apparentlymart/go-textseg/v15/textseg"
 
 	"hx/lib"
 )
@@ -620,5 +620,3 @@ func mutate(r *lib.Rand, src []byte) ([]byte, string) {
 	ins(pos(), nearMissInserts[r.Intn(len(nearMissInserts))])
 	return out, "insert-fragment"
 }
-
-func validUTF8(b []byte) bool { return utf8.Valid(b) }
